@@ -302,6 +302,16 @@ def _corpus_families(big):
                         "cs": [{"k": "MinimumTrials", "n": n}]}})
         out.append({"factors": [col, size3, mt], "block": {"k": "repeat", "cs": [{"k": "MinimumTrials", "n": 5}],
                     "b": {"k": "cross", "design": [0, 1, 2], "crossing": [0, 2], "rcc": True, "cs": []}}})
+    # the same with *weighted* derived levels and a leftover round as long as the number of crossing instances
+    sz3 = _sf(1, ["a", "b", "c"])
+    kind_t = [0, 1, 0, 0]
+    kind = {"id": 2, "name": "f2", "window": {"deps": [1], "width": 1, "stride": 1, "start": None, "kind": "within"},
+            "levels": [{"name": "big", "w": 2, "table": kind_t}, {"name": "tiny", "w": 1, "table": [0, 0, 1, 1]}]}
+    for n in (5, 4, 8):
+        out.append({"factors": [sz3, kind], "block": {"k": "repeat", "cs": [{"k": "MinimumTrials", "n": n}],
+                    "b": {"k": "cross", "design": [1, 2], "crossing": [2], "rcc": True, "cs": []}}})
+    out.append({"factors": [sz3, kind], "block": {"k": "cross", "design": [1, 2], "crossing": [2], "rcc": True,
+                "cs": [{"k": "MinimumTrials", "n": 5}]}})
     out.mark()
     # a preamble (transition factor in the crossing) together with an Exclude on a basic level
     tr0 = _transition(3, 0, 2)
